@@ -46,6 +46,22 @@ type context struct {
 	newRefs  map[string]*newRef
 	warnings []string
 	resolved map[string]string
+	conflict map[string]struct{} // names of the definitions created to resolve a name conflict (OAIGen)
+}
+
+// isInConflictDefinition tells whether a key designates a definition created to resolve a name conflict,
+// or some place inside such a definition.
+//
+// NOTE: the name alone does not tell: the input spec may well hold definitions or properties named like "xyzOAIGen".
+func (c *context) isInConflictDefinition(key string) bool {
+	for name := range c.conflict {
+		definition := path.Join(definitionsPath, name)
+		if key == definition || strings.HasPrefix(key, definition+"/") {
+			return true
+		}
+	}
+
+	return false
 }
 
 func newContext() *context {
@@ -53,6 +69,7 @@ func newContext() *context {
 		newRefs:  make(map[string]*newRef, allocMediumMap),
 		warnings: make([]string, 0),
 		resolved: make(map[string]string, allocMediumMap),
+		conflict: make(map[string]struct{}),
 	}
 }
 
@@ -351,6 +368,9 @@ func importNewRef(entry sortref.RefRevIdx, refStr string, opts *FlattenOpts) err
 	debugLog("new name for [%s]: %s - with name conflict:%t", strings.Join(entry.Keys, ", "), newName, isOAIGen)
 
 	opts.flattenContext.resolved[refStr] = newName
+	if isOAIGen {
+		opts.flattenContext.conflict[newName] = struct{}{}
+	}
 
 	// rewrite the external refs to local ones
 	for _, key := range entry.Keys {
@@ -455,7 +475,7 @@ func importExternalReferences(opts *FlattenOpts) (bool, error) {
 		r.newName = path.Base(k)
 		r.schema = spec.RefSchema(r.path)
 		r.path = k
-		r.isOAIGen = strings.Contains(k, "OAIGen")
+		r.isOAIGen = opts.flattenContext.isInConflictDefinition(k)
 	}
 
 	return complete, nil
